@@ -316,6 +316,22 @@ def _children(app, path, wsgi, prefix):
     return sorted(urllib.parse.unquote(st.href)[len(base):] for st in r.statuses if urllib.parse.unquote(st.href) != base)
 
 
+_PP_PROPS = ("{DAV:}displayname", "{http://apple.com/ns/ical/}calendar-color",
+             "{urn:ietf:params:xml:ns:caldav}calendar-description", "{urn:ietf:params:xml:ns:carddav}addressbook-description")
+
+
+def _pp_props(app, wsgi, prefix):
+    """The settable properties of the calendar and of the address book as PROPFIND shows them."""
+    out = []
+    for col in (mweb.CAL, mweb.AB):
+        r = mweb.call(app, "PROPFIND", col + "/", headers=[("Depth", "0")], xml=mweb.propfind_body(*_PP_PROPS),
+                      prefix=prefix, wsgi=wsgi)
+        if r.kind not in ("multistatus", "single") or not r.statuses:
+            return None
+        out.append(tuple(mweb.prop_text(r.statuses[0], n) for n in _PP_PROPS))
+    return out
+
+
 def body_coll_ops(c0, c1, v0, ni, text, mb=0):
     """One collection-level request (MKCOL / MKCALENDAR of a sibling, PROPPATCH of a property, DELETE of the
     neighbouring collection) next to a calendar and an address book in arbitrary valid states: a success creates /
@@ -375,8 +391,38 @@ def body_coll_ops(c0, c1, v0, ni, text, mb=0):
         prop = Wd_.ET.SubElement(Wd_.ET.SubElement(el, "{DAV:}set"), "{DAV:}prop")
         Wd_.ET.SubElement(prop, ["{DAV:}displayname", "{http://apple.com/ns/ical/}calendar-color",
                                  "{urn:ietf:params:xml:ns:caldav}calendar-description"][ni % 3]).text = text
+        # ... followed (mb 1-4) or preceded (mb 5) by an instruction the server refuses: an unknown element, a set
+        # without a prop, an empty remove, a set with two props.  RFC 4918 9.2: all instructions or none.
+        if mb == 1:
+            Wd_.ET.SubElement(el, "{DAV:}bogus")
+        elif mb == 2:
+            Wd_.ET.SubElement(Wd_.ET.SubElement(el, "{DAV:}set"), "{DAV:}foo")
+        elif mb == 3:
+            Wd_.ET.SubElement(el, "{DAV:}remove")
+        elif mb == 4:
+            two = Wd_.ET.SubElement(el, "{DAV:}set")
+            Wd_.ET.SubElement(two, "{DAV:}prop")
+            Wd_.ET.SubElement(two, "{DAV:}prop")
+        elif mb == 5:
+            el.insert(0, Wd_.ET.Element("{DAV:}bogus"))
+        before = _pp_props(app, wsgi, prefix)
         r = mweb.call(app, "PROPPATCH", target + "/", xml=el, content_type="text/xml", prefix=prefix, wsgi=wsgi)
-        cls = "PROPPATCH:" + (r.kind if r.kind != "response" else r.status_class)
+        cls = "PROPPATCH:b%d:" % mb + (r.kind if r.kind != "response" else r.status_class)
+        if r.status_class == "5xx":
+            return (False, cls)
+        if r.status_class != "2xx":
+            # refused: no property of either collection changed, now or after a restart
+            import xandikos.web as Wb0
+            if _pp_props(app, wsgi, prefix) != before:
+                return (False, cls + ":changed")
+            Wb0.open_store_from_path.cache_clear()
+            if _pp_props(mweb.make_app(), wsgi, prefix) != before:
+                return (False, cls + ":changed-after-restart")
+        elif mb == 0 and before is not None:
+            after = _pp_props(app, wsgi, prefix)
+            other = 1 - ni % 2
+            if after is None or after[other] != before[other]:
+                return (False, cls + ":other-collection")
     else:  # DELETE of the address book (ni even) or of a collection that does not exist (ni odd)
         target = mweb.AB if ni % 2 == 0 else "/user/contacts/" + name
         r = mweb.call(app, "DELETE", target + "/", prefix=prefix, wsgi=wsgi)
@@ -416,7 +462,9 @@ def h_coll_ops(c0: bytes, c1: bytes, v0: bytes, ni: int, text: str, mb: int) -> 
 
 # ------------------------------------------------------------------ two requests on one app, exhaustive over a token menu
 TOK = [b"", b"xa", b"ya", b"xb", b"Na", b"!a", b"x-"]   # absent / uid a (two contents) / uid b / normalised / invalid / no uid
-REQS = [("PUT", 0), ("PUT", 1), ("PUT", 2), ("DELETE", 0), ("DELETE", 2), ("POST", None), ("PUTV", None), ("PUTT", None)]
+REQS = [("PUT", 0), ("PUT", 1), ("PUT", 2), ("DELETE", 0), ("DELETE", 2), ("POST", None), ("PUTV", None), ("PUTT", None),
+        ("PUTC", None)]
+CFGNAME = ".xandikos"  # the file a collection keeps its own metadata in
 
 
 def _one_request(app, S, A, req, tok, cond, wsgi, prefix, kind):
@@ -431,6 +479,13 @@ def _one_request(app, S, A, req, tok, cond, wsgi, prefix, kind):
         r = mweb.call(app, "PUT", mweb.CAL + "/n.txt", body=tok, content_type="application/octet-stream", prefix=prefix, wsgi=wsgi)
         want, S2 = SP.put(S, "n.txt", tok)
         return (r.status_class == "2xx", "PUTT:" + want, S2, A)
+    if method == "PUTC":   # the name the collection keeps its own metadata under: refused, or a member like any other
+        r = mweb.call(app, "PUT", mweb.CAL + "/" + CFGNAME, body=tok, content_type="application/octet-stream", prefix=prefix, wsgi=wsgi)
+        if r.status_class == "2xx":
+            S2 = dict(S)
+            S2[CFGNAME] = tok
+            return (True, "PUTC:stored", S2, A)
+        return (r.status_class != "5xx", "PUTC:refused", S, A)
     if method == "POST":
         r = mweb.call(app, "POST", mweb.CAL + "/", body=tok, content_type="text/calendar", prefix=prefix, wsgi=wsgi)
         want, _ = SP.put(S, "\x00new.ics", tok)
@@ -594,6 +649,8 @@ def body_real_e2e(i0, r1, k1):
                 return {"m": "PUT", "p": mweb.CAL + "/n.txt", "b": tok.decode("latin-1"), "ct": "application/octet-stream", "cond": cond}
             if method == "POST":
                 return {"m": "POST", "p": mweb.CAL + "/", "b": tok.decode("latin-1"), "ct": "text/calendar", "cond": 0}
+            if method == "PUTC":
+                return {"m": "PUT", "p": mweb.CAL + "/" + CFGNAME, "b": tok.decode("latin-1"), "ct": "application/octet-stream", "cond": 0}
             return {"m": method, "p": mweb.CAL + "/" + WNAMES[t], "b": tok.decode("latin-1") if method == "PUT" else "",
                     "ct": "text/calendar" if method == "PUT" else None, "cond": cond}
 
@@ -1031,14 +1088,17 @@ HARNESSES = [
                      ("MKCOL:b4:4xx", ("MKCOL", "tree", "git", False, "/")), ("MKCOL:b1:2xx", ("MKCOL", "tree", "git", False, "/")),
                      ("MKCALENDAR:b2:2xx", ("MKCALENDAR", "bare", "git", True, "/dav/")),
                      ("MKCALENDAR:b3:4xx", ("MKCALENDAR", "bare", "git", True, "/dav/")),
-                     ("PROPPATCH:multistatus", ("PROPPATCH", "tree", "file", False, "/")),
+                     ("PROPPATCH:b0:multistatus", ("PROPPATCH", "tree", "file", False, "/")),
+                     ("PROPPATCH:b1:4xx", ("PROPPATCH", "tree", "file", False, "/")),
+                     ("PROPPATCH:b4:4xx", ("PROPPATCH", "tree", "file", False, "/")),
                      ("DELETE:ab:2xx", ("DELETE", "tree", "git", True, "/")),
                      ("DELETE:missing:404", ("DELETE", "tree", "git", True, "/"))],
             parts={"quick": _COLL_PARTS_Q, "thorough": _COLL_PARTS_T}, bounds=_B, budget={"quick": 75, "thorough": 400},
             per_path_timeout={"quick": 40, "thorough": 90},
             describe="one collection-level request (MKCOL / MKCALENDAR of a sibling - without a body, with a valid <set>, "
                      "an empty root, a wrong root, an unreadable body, an unknown child -, PROPPATCH of displayname / colour / "
-                     "description, DELETE of the neighbouring collection or of a missing one) beside a calendar and an "
+                     "description alone or followed / preceded by an instruction the server refuses (unknown element, set without "
+                     "prop, empty remove, set with two props: all or nothing, RFC 4918 9.2), DELETE of the neighbouring collection or of a missing one) beside a calendar and an "
                      "address book in arbitrary valid states: exactly the addressed collection appears / disappears, a "
                      "refusal changes nothing, every member of the other collections still answers GET with its content, "
                      "also after a restart; part = (method, store kind, metadata back end, WSGI?, route prefix)",
@@ -1055,7 +1115,8 @@ HARNESSES = [
                    "thorough": [(k, w, p) for k in ("tree", "bare") for (w, p) in ((False, "/"), (True, "/dav/"), (True, "/"), (False, "/dav/"))]},
             bounds=_B, budget={"quick": 150, "thorough": 1500}, per_path_timeout={"quick": 60, "thorough": 60},
             describe="two requests through one long-lived app (PUT / DELETE under all five condition kinds, POST, a vCard "
-                     "PUT into the address book, a plain-file PUT into the calendar) from a state and with bodies drawn "
+                     "PUT into the address book, a plain-file PUT into the calendar, a PUT to the name of the collection's own "
+                     "metadata file) from a state and with bodies drawn "
                      "from a menu of 7 tokens (absent, two contents of one UID, another UID, to-be-normalised, invalid, no "
                      "UID): status and the GET / listing state of both collections == specification after each request "
                      "and after a restart; the solver chooses state and first request, every second request and all conditions "
